@@ -40,13 +40,16 @@ def warmup():
 
 def enumerate_states(tier, seed):
     states = []
+    ori_a = [0, 24, 5, 26, 28, 13] if tier == "thorough" else ORI_A
+    ori_b = [0, 5, 24, 26, 25, 27, 28, 31, 13, 7] if tier == "thorough" else ORI_B
     for fa, fb in itertools.product(hydro.FACTORIES, hydro.FACTORIES):
-        for pl in PLACEMENTS:
-            for oa in ORI_A:
-                for ob in (ORI_B if tier == "thorough" else ORI_B[:3] if (pl in (0, 2)) else ORI_B[:2]):
+        for pl in (PLACEMENTS + [5] if tier == "thorough" else PLACEMENTS):
+            for oa in ori_a:
+                for ob in (ori_b if tier == "thorough" else ORI_B[:3] if (pl in (0, 2)) else ORI_B[:2]):
                     states.append({"a": fa, "b": fb, "pl": pl, "oa": oa, "ob": ob})
-    return states, {"bound_completed": "36 factory pairs x 4 contact placements x 2 orientations of body 1 x 2-4 orientations of body 2, each with "
-                                       "swap, 5 rigid motions, repeat, 6 interleaved sequences and the tree broad phase", "exhaustive": True}
+    return states, {"bound_completed": "36 factory pairs x %s placements x %d orientations of body 1 x %s orientations of body 2, each with "
+                                       "swap, 5 rigid motions, repeat, 6 interleaved sequences and the tree broad phase"
+                                       % (("5 (4 contact + touching)", 6, "10") if tier == "thorough" else ("4 contact", 2, "2-3")), "exhaustive": True}
 
 
 def _viol(entry, kind, cls, detail):
